@@ -71,6 +71,23 @@ static void role_payload(const Case &c, std::vector<Bytes> &recent) {
         Bytes got(snk.got.begin() + (long)before, snk.got.end());
         if (d != 1 || got != recent[i]) { F(c, "concatenation", vp::fmt("frame %zu of a concatenation: rc=%d payload %s", i, d, vp::hex(got).c_str())); return; }
     }
+    // the same concatenation from a polled source: in front of every frame the source once reports "nothing there yet" (the decoder has
+    // consumed nothing of the coming frame); the error comes back unchanged and the frames are still delivered in order
+    for (int code : {-EAGAIN, -ENODATA, -EIO}) {
+        ep::ScriptSource psrc(c.kinds & 1, stream); ep::ScriptSink psnk(c.kinds & 2);
+        size_t at = 0;
+        for (auto &q : recent) { psrc.transient.push_back({at, code}); Bytes e; int r; if (!lib_encode(c, q, e, r)) return; at += e.size(); }
+        RFC1055Context pctx; ctx_init(pctx, c.sof);
+        for (size_t i = 0; i < recent.size(); i++) {
+            size_t before = psnk.got.size(), pos0 = psrc.pos;
+            int d = rfc1055_decode(&pctx, &psrc.src, &psnk.snk);
+            if (d != code || psnk.got.size() != before || psrc.pos != pos0) { F(c, "source-error-between-frames", vp::fmt("source reports %d in front of frame %zu: decode returned %d, consumed %zu, emitted %zu", code, i, d, psrc.pos - pos0, psnk.got.size() - before)); return; }
+            d = rfc1055_decode(&pctx, &psrc.src, &psnk.snk);
+            Bytes got(psnk.got.begin() + (long)before, psnk.got.end());
+            if (d != 1 || got != recent[i]) { F(c, "concatenation-after-source-error", vp::fmt("the source reported %d once in front of frame %zu of a concatenation; the next call returned %d with payload %s instead of the frame", code, i, d, vp::hex(got).c_str())); return; }
+        }
+    }
+    vp::cls("concatenation-from-polled-source");
 }
 
 // ---- (b) raw decoder input
